@@ -429,8 +429,26 @@ def pitchXcorrAvx2 (x y : Nat → α) (len maxPitch : Nat) (i : Nat) : α :=
     xcorrKernelAvx x (fun j => y (i / 8 * 8 + j)) len (i % 8)
   else innerProdSse x (fun j => y (i + j)) len
 
-/-- celt_pitch_xcorr_c / the specification: `xcorr[i] = Σ_{j<len} x[j]*y[i+j]`. -/
+/-- the specification of the pitch cross-correlation: `xcorr[i] = Σ_{j<len} x[j]*y[i+j]` (the `#if 0` "simple
+    version" of celt_pitch_xcorr_c, pitch.c:236-252). -/
 def pitchXcorrSpec (x y : Nat → α) (len : Nat) (i : Nat) : α := sumRange (fun j => x j * y (i + j)) len
+
+/-- celt_pitch_xcorr_c as compiled (pitch.c:254-301, the unrolled version): blocks of four lags through
+    `xcorr_kernel` with `sum = {0,0,0,0}`, the last `max_pitch % 4` lags through `celt_inner_prod`.  Both inner
+    kernels are parameters: with SSE presumed they are xcorr_kernel_sse / celt_inner_prod_sse (pitch_sse.h:56-59,
+    103-106), otherwise the portable ones. -/
+def pitchXcorrCWith (kern : (Nat → α) → (Nat → α) → Vec α → Nat → Vec α) (ip : (Nat → α) → (Nat → α) → Nat → α)
+    (x y : Nat → α) (len maxPitch : Nat) (i : Nat) : α :=
+  if i < 4 * (maxPitch / 4) then kern x (fun j => y (i / 4 * 4 + j)) vzero len (i % 4)
+  else ip x (fun j => y (i + j)) len
+
+/-- celt_pitch_xcorr_c in the x86 float build (SSE presumed). -/
+def pitchXcorrC (x y : Nat → α) (len maxPitch : Nat) (i : Nat) : α :=
+  pitchXcorrCWith xcorrKernelSse innerProdSse x y len maxPitch i
+
+/-- celt_pitch_xcorr_c with the portable inner kernels (arch level 0 when nothing is presumed). -/
+def pitchXcorrCPortable (x y : Nat → α) (len maxPitch : Nat) (i : Nat) : α :=
+  pitchXcorrCWith xcorrKernelC innerProdC x y len maxPitch i
 
 /-- comb_filter_const_c, float build (celt.c:163-186), one output sample: `x` is indexed with the offset
     `off = T+2` so that `x[i-T-2]` is `x (i)`; `y[i] = x[i] + g10*x[i-T] + g11*(x[i-T+1]+x[i-T-1]) +
